@@ -32,6 +32,10 @@ def rule_names():
         here = os.path.join(os.path.dirname(os.path.abspath(__file__)), "..", "rules")
         for p in glob.glob(os.path.join(here, "*.py")) + glob.glob(os.path.join(here, "*.tsv")):
             txt = open(p).read()
+            if p.endswith(".py"):
+                # names in comments and docstrings are prose, not anchors
+                txt = re.sub(r'''("""|\'\'\')[\s\S]*?\1''', "", txt)
+                txt = "\n".join(l.split("  # ")[0] if not l.lstrip().startswith("#") else "" for l in txt.splitlines())
             for m in re.finditer(r"::([A-Za-z_][A-Za-z0-9_]*)", txt):
                 names.add(m.group(1))
             for m in re.finditer(r"[\"']([a-z_][a-z0-9_]{3,})[\"']", txt):
